@@ -400,6 +400,9 @@ func (e *Engine) unusedAnchors() string {
 	}
 	for _, ls := range c.Loops {
 		found := false
+		if strings.Contains(ls.Anchor, "/") {
+			continue // loop of an inlined callee
+		}
 		for _, li := range e.loopsOf(e.unit.Fn) {
 			if e.loopSpecFor(c, e.unit.Fn, li) == ls {
 				found = true
